@@ -1509,6 +1509,9 @@ impl SubRule {
                                 res_word.syllables[sp] = syll.clone();
                                 last_pos.syll_index = sp+1;
                                 last_pos.seg_index = 0;
+                                if state_index >= self.output.len()-1 {
+                                    last_pos.decrement(&res_word);
+                                }
                                 if let Some(m) = mods {
                                     res_word.syllables[sp].apply_syll_mods(&self.alphas, &m.suprs, num.position)?;
                                 }
